@@ -716,7 +716,8 @@ def classify(case, mode, R, S):
     bad = [(r, s) for r, s in zip(R["res"], S["res"]) if r != s]
     if len(R["res"]) != len(S["res"]) or not bad:
         return None
-    # F-C09-2: a failing row whose placeholder has the wrong time index, everything else equal
+    # class of F-C09-2 (repaired; listed as "fixed", so a reappearance is a violation): a failing row whose
+    # placeholder has the wrong time index, everything else equal
     for (rk, re), (sk, se) in bad:
         if not (rk == sk and re["nan"] and se["nan"] and re["t"] != se["t"]):
             return None
